@@ -14,7 +14,7 @@ def main (args : List String) : IO UInt32 := do
   | ["autotune"] => Driver.AutoTuneC.main; return 0
   | ["cfb"] => Driver.CfbC.main; return 0
   | ["pool"] => Driver.PoolC.main; return 0
-  -- TEMP(w-wedge)   | ["kcpown"] => Driver.KcpOwnC.main; return 0
-  -- TEMP(w-wedge)   | ["fecown"] => Driver.FecOwnC.main; return 0
+  | ["kcpown"] => Driver.KcpOwnC.main; return 0
+  | ["fecown"] => Driver.FecOwnC.main; return 0
   | ["sessfec"] => Driver.SessFecC.main; return 0
   | _ => IO.eprintln "usage: kcpdriver <component>"; return 2
